@@ -26,14 +26,16 @@ def answer (line : String) : String :=
     | none => "bad-op"
   | [] => "bad-op"
 
-partial def loop (h : IO.FS.Stream) (out : IO.FS.Stream) : IO Unit := do
-  let line ← h.getLine
-  if line.isEmpty then return ()
-  let l := if line.endsWith "\n" then (line.dropEnd 1).toString else line
-  out.putStrLn (answer l)
-  loop h out
-
+/-- the answer loop: iterative (a recursive formulation overflowed the stack after about a million requests) -/
 def main : IO Unit := do
+  let inp ← IO.getStdin
   let out ← IO.getStdout
-  loop (← IO.getStdin) out
+  let mut go := true
+  while go do
+    let line ← inp.getLine
+    if line.isEmpty then
+      go := false
+    else
+      let l := if line.endsWith "\n" then (line.dropEnd 1).toString else line
+      out.putStrLn (answer l)
   out.flush
